@@ -155,9 +155,12 @@ def build_estimator(spec):
     if kind == "trend":
         return vd.Trend(degree=spec[1])
     if kind == "spline":
+        kw = {}
         if len(spec) > 2 and spec[2] is not None:
-            return vd.Spline(damping=spec[1], mindist=spec[2])  # deprecated fudge factor, still part of SplineCV's grid
-        return vd.Spline(damping=spec[1])
+            kw["mindist"] = spec[2]  # deprecated fudge factor, still part of SplineCV's grid
+        if len(spec) > 3 and spec[3] is not None:
+            kw["force_coords"] = tuple(np.array(c, dtype=float) for c in spec[3])
+        return vd.Spline(damping=spec[1], **kw)
     if kind == "knn":
         return vd.KNeighbors(k=spec[1], reduction=REDUCTIONS[spec[2]])
     if kind == "linear":
